@@ -23,7 +23,7 @@ def reference_table(server, reg, mats):
             reg.swap_log()
             try:
                 text = server._marshaled_dispatch(data, None, "/")
-            except Exception:       # noqa
+            except BaseException:   # noqa  (whatever escapes the dispatcher: the reference has no reply then)
                 text = None
             table[data] = (text, reg.swap_log())
     finally:
